@@ -287,7 +287,10 @@ impl<T: ?Sized> RwLock<T> {
         if !write_locked && writers_waiting && !blocked_once {
           ST_READ_BLOCKED_BY_WAITING_WRITER.fetch_add(1, Ordering::Relaxed);
         }
-        st.parked.push((task, shuttle::thread::current()));
+        // a parked task may wake spuriously and come here again: register once
+        if !st.parked.iter().any(|(t, _)| *t == task) {
+          st.parked.push((task, shuttle::thread::current()));
+        }
       }
       if !blocked_once {
         blocked_once = true;
@@ -358,7 +361,9 @@ impl<T: ?Sized> RwLock<T> {
         if !st.waiting_writers.contains(&task) {
           st.waiting_writers.push(task);
         }
-        st.parked.push((task, shuttle::thread::current()));
+        if !st.parked.iter().any(|(t, _)| *t == task) {
+          st.parked.push((task, shuttle::thread::current()));
+        }
       }
       if !blocked_once {
         blocked_once = true;
@@ -636,7 +641,7 @@ impl<T: ?Sized + fmt::Display> fmt::Display for RwLockWriteGuard<'_, T> {
 #[derive(Default)]
 struct MutexState {
   owner: Option<usize>,
-  parked: Vec<shuttle::thread::Thread>,
+  parked: Vec<(usize, shuttle::thread::Thread)>,
 }
 
 /// A mutual exclusion lock with the API of `std::sync::Mutex`. Not re-entrant: a task locking a
@@ -760,7 +765,9 @@ impl<T: ?Sized> Mutex<T> {
           st.owner = Some(task);
           break;
         }
-        st.parked.push(shuttle::thread::current());
+        if !st.parked.iter().any(|(t, _)| *t == task) {
+          st.parked.push((task, shuttle::thread::current()));
+        }
       }
       if !blocked_once {
         blocked_once = true;
@@ -818,7 +825,7 @@ impl<T: ?Sized> Mutex<T> {
     let parked: Vec<shuttle::thread::Thread> = {
       let mut st = self.st();
       st.owner = None;
-      std::mem::take(&mut st.parked)
+      std::mem::take(&mut st.parked).into_iter().map(|(_, t)| t).collect()
     };
     let id = self.id();
     if std::thread::panicking() {
